@@ -12,7 +12,7 @@ import (
 var baseNames = []string{"a.test", "b.test", "secret.test", "x.a.test", "y.x.a.test", "c.example", "localhost", ""}
 
 var cfgOddNames = []string{
-	"\u00e9.test", "*.\u00e9.test", "xn--9ca.test",
+	"\u00e9.test", "*.\u00e9.test",
 	"\u017f.test", "k.test", "\u212a.TEST", "\u00c9.test", "\u00e9.test", "*.\u017f.test", "s.test",
 	"A.Test", "SECRET.TEST", "*.a.test", "*.test", "*.*.test", "*", "*.x.a.test", "x.*.test", "*a.test",
 	"*.", ".test", "a..test", "*.A.TEST", "*.*", "*.*.a.test", "*..test", "a.test.", "*.example",
@@ -599,7 +599,7 @@ func (p *prop) Generate(rng *core.Rand, tier string, emit func(string)) {
 		emit("pol 0 . 2d/0/6/0000000000000000") // Run reports the setup failure
 		return
 	}
-	nPol, nEnf, nBad, nE2E, nCF := 6000, 10000, 800, 600, 1500
+	nPol, nEnf, nBad, nE2E, nCF := 4500, 8000, 800, 600, 1200
 	switch tier {
 	case "thorough":
 		nPol, nEnf, nBad, nE2E, nCF = 60000, 100000, 5000, 6000, 20000
